@@ -45,4 +45,7 @@ const SIZE_OF_U64: usize = std::mem::size_of::<u64>();
 /// Crossover threshold in bytes for choosing IO vs mmap iteration strategy.
 /// Ranges smaller than this use mmap (zero-copy), larger use buffered IO.
 /// IO is kept for truly massive datasets that may exceed available address space.
+#[cfg(not(anydb_verif))]
 pub(crate) const MMAP_CROSSOVER_BYTES: usize = 1024 * 1024 * 1024; // 1 GiB
+#[cfg(anydb_verif)]
+pub(crate) use crate::verif_hooks::MMAP_CROSSOVER_BYTES;
